@@ -33,9 +33,11 @@ pub struct Step {
     pub cancel: bool,
 }
 
-pub const CALLS: [&str; 16] = [
+/// (complete_rx_small: complete_rx into a buffer shorter than the packet the chip reports - a reception that
+/// fails after the chip has finished it; recorded under the call name complete_rx)
+pub const CALLS: [&str; 17] = [
     "init", "sleep_warm", "sleep_cold", "prep_tx", "tx", "prep_rx_single", "prep_rx_cont", "prep_rx_duty", "start_rx",
-    "complete_rx", "switch_ch", "listen", "prep_cad", "cad", "sync_word", "cw",
+    "complete_rx", "switch_ch", "listen", "prep_cad", "cad", "sync_word", "cw", "complete_rx_small",
 ];
 
 const IRQ_TX_DONE: u16 = 0x0001;
@@ -54,6 +56,10 @@ pub fn irq_variants(chip: &str, call: &str) -> Vec<Vec<u16>> {
         "lw_rx_single" | "lw_rx_cont" => "complete_rx",
         c => c,
     };
+    if call == "complete_rx_small" {
+        // only the completed reception is of interest: the packet does not fit the caller's buffer
+        return vec![irq_variants(chip, "complete_rx")[0].clone()];
+    }
     if base_chip(chip) == "lr1110" {
         // 32-bit status word: TxDone 0x04, RxDone 0x08, PreambleDetected 0x10, HeaderError 0x40, CrcError 0x80,
         // CadDone 0x100, CadDetected 0x200, Timeout 0x400; an all-zero word after the interrupt line fired is taken
@@ -375,6 +381,7 @@ impl PhyRun {
         };
         let (mode, cold, calimg) = self.state();
         let b = self.bus.borrow();
+        let call = if call == "complete_rx_small" { "complete_rx".to_string() } else { call };
         json!({"ev": "phy", "chip": self.chip, "call": call, "irq": st.irq, "fault": st.fault, "cancel": st.cancel as u8,
                "pre_mode": pre_mode, "pre_cold": pre_cold, "res": r, "err": err,
                "mode": mode, "cold": cold, "calimg": calimg, "bus": bus_json(&b.log), "skipped": 0, "timed_out": timed_out})
@@ -407,6 +414,11 @@ fn do_call<RK: RadioKind>(dev: &mut LoRa<RK, MockDelay>, call: &str) -> Option<R
         "start_rx" => block_on_budget(dev.start_rx(), budget),
         "complete_rx" => {
             let mut buf = [0u8; 64];
+            block_on_budget(dev.complete_rx(&rx_pkt, &mut buf), budget).map(|r| r.map(|_| ()))
+        }
+        "complete_rx_small" => {
+            // the emulated chips report a 5-byte packet
+            let mut buf = [0u8; 3];
             block_on_budget(dev.complete_rx(&rx_pkt, &mut buf), budget).map(|r| r.map(|_| ()))
         }
         "switch_ch" => block_on_budget(dev.rx_switch_channel(868_300_000), budget),
